@@ -28,9 +28,43 @@ class C13(Spec):
     assumptions = ["lengths count runes/cells, as the code does (no East-Asian width, no combining marks)",
                    "unicode.IsSpace/IsControl tables are checked exhaustively against Go on every run (op unitable)"]
 
+    def boundary_text(self, rng, w):
+        """lines whose visible lengths sit at the width (w-1, w, w+1), blank and space-only lines, also at the end"""
+        lines = []
+        for _ in range(rng.randint(1, 6)):
+            k = rng.choice((0, 0, 1, max(w - 1, 0), w, w, w + 1, 2 * w))
+            r = rng.random()
+            if r < 0.2:
+                line = " " * rng.choice((0, 1, 3))
+            else:
+                line = "".join(rng.choice("abcxyz") if rng.random() < 0.85 else " " for _ in range(k))
+                if rng.random() < 0.3 and line:
+                    cut = rng.randrange(len(line) + 1)
+                    line = line[:cut] + gen.py_apply(line[cut:], rng.choice(("1", "3", "38;2;1;2;3"))) if line[cut:] else line
+            lines.append(line)
+        for _ in range(rng.choice((0, 0, 1, 2, 3))):
+            lines.append(rng.choice(("", "", " ", "  \t")))
+        return "\n".join(lines), len(lines)
+
     def gen_cases(self, rng, n):
         cases = []
         for _ in range(n):
+            if rng.random() < 0.25:
+                # boundary geometry: what is measured against the width is exactly at it
+                w = rng.choice((1, 2, 3, 5, 8, 12))
+                t, nl = self.boundary_text(rng, w)
+                r = rng.random()
+                if r < 0.45:
+                    cases.append(tcase("snip", t, w, rng.choice((max(nl - 1, 0), nl, nl, nl + 1, 4)), rng.choice(["…", gen.py_apply("…", "38;2;1;2;3"), ""])))
+                elif r < 0.65:
+                    cases.append(tcase("wrap", t, w))
+                elif r < 0.8:
+                    cases.append(tcase("dumbwrap", t, w))
+                elif r < 0.9:
+                    cases.append(tcase("pad", t, w))
+                else:
+                    cases.append(tcase("setlength", t.replace("\n", " "), w, "…"))
+                continue
             t = gen.any_text(rng)
             r = rng.random()
             if r < 0.30:
